@@ -7,7 +7,7 @@ import pathlib
 import shutil
 import sys
 import tempfile
-from typing import Any, Dict, List, Optional, Tuple
+from typing import Any, Dict, List, Optional, Sequence, Tuple
 
 from hypothesis import strategies as st
 
@@ -176,6 +176,7 @@ class Model:
         self.hidden_entries = 0
         self.nested_files = 0
         self.files_in_hidden_dirs = 0
+        self.rels_in_hidden_dirs = []  # type: List[str]
         self.classes = set()  # type: set
 
 
@@ -213,6 +214,7 @@ def ref_model(tree: Any, ignore_hidden_dirs: bool) -> Model:
                 continue
             if under_hidden:
                 m.files_in_hidden_dirs += 1
+                m.rels_in_hidden_dirs.append("/".join(path))
                 m.classes.add("file-in-hidden-dir")
                 if ignore_hidden_dirs:
                     continue
@@ -425,6 +427,15 @@ def _cmp_e2e(rc: Any, out: str, err: str, output_dir: pathlib.Path, m: Model) ->
     return None
 
 
+def _names_any(texts: Any, rels: Sequence[str]) -> bool:
+    """Root-cause evidence: does a produced error name a file that lies below a hidden directory?"""
+    if not isinstance(texts, list):
+        return False
+    return any(
+        isinstance(t, str) and (rel in t or _as_in_report(rel) in t) for t in texts for rel in rels
+    )
+
+
 def _in_write_error_report(exc: BaseException) -> bool:
     import traceback
 
@@ -471,7 +482,7 @@ def evaluate(case: Any, scratch: pathlib.Path) -> Tuple[List[Tuple[str, str]], M
             fails.append((f"api-raises-{runner.exc_bucket(exc)}", runner.exc_text(exc)))
         else:
             d = _cmp_api(res, model_a)
-            if d is not None and model_b is not model_a:
+            if d is not None and model_b is not model_a and _names_any(res[1], model_a.rels_in_hidden_dirs):
                 fails.append(
                     (B_HIDDEN,
                      f"read_from_directory: {model_a.files_in_hidden_dirs} regular file(s) below a hidden "
@@ -510,7 +521,7 @@ def evaluate(case: Any, scratch: pathlib.Path) -> Tuple[List[Tuple[str, str]], M
                 fails.append((f"e2e-raises-{runner.exc_bucket(exc)}", runner.exc_text(exc)))
         else:
             d = _cmp_e2e(rc, out.getvalue(), err.getvalue(), output_dir, model_a)
-            if d is not None and model_b is not model_a:
+            if d is not None and model_b is not model_a and _names_any([err.getvalue()], model_a.rels_in_hidden_dirs):
                 if not any(b == B_HIDDEN for b, _ in fails):
                     fails.append((B_HIDDEN, f"main.execute: files below a hidden directory are not ignored; "
                                   f"{d[0]}: {d[1]}"))
